@@ -190,6 +190,15 @@ func (dec *Decimal) SetString(s string) error {
 	}
 
 	// Set underlying big.Int structure to the whole number
+	// Fractional digits beyond the scale cannot be stored - they may
+	// only be dropped if they are zero.
+	if len(right) > dec.Scale {
+		if len(strings.TrimRight(right, "0")) > dec.Scale {
+			return fmt.Errorf("number %s has more than %d fractional digits", s, dec.Scale)
+		}
+		right = right[:dec.Scale]
+	}
+
 	i := &big.Int{}
 	if _, ok := i.SetString(left+right, 10); !ok {
 		return fmt.Errorf("failed to parse number %s%s", left, right)
@@ -200,6 +209,10 @@ func (dec *Decimal) SetString(s string) error {
 		mul := big.NewInt(10)
 		mul.Exp(mul, big.NewInt(int64(dec.Scale-len(right))), nil)
 		i.Mul(i, mul)
+	}
+
+	if len(new(big.Int).Abs(i).String()) > dec.Precision && i.Sign() != 0 {
+		return fmt.Errorf("number %s has more than %d digits", s, dec.Precision)
 	}
 
 	dec.i = i
